@@ -75,6 +75,13 @@ pub fn histories() -> Vec<History> {
         c("colliding-withdraw-tail", vec![vec![Set(0, Some(0)), Set(1, Some(0))], vec![Set(2, Some(1))]], vec![Set(0, None)]),
         c("colliding-withdraw-middle", vec![vec![Set(0, Some(0)), Set(1, Some(0))], vec![Set(2, Some(1))], vec![Set(3, Some(1))]], vec![Set(2, None), Set(1, None)]),
         c("colliding-replace-grows", vec![vec![Set(0, Some(0)), Set(1, Some(0))], vec![Set(2, Some(1))]], vec![Set(0, Some(2))]),
+        // Two neighbours withdrawn back to front, so that the second hole
+        // absorbs the first while that is the head of the free list, then
+        // both names published again into the reused space.
+        h("withdraw-neighbours-then-republish", vec![Set(0, Some(0)), Set(1, Some(0)), Set(2, Some(0)), Set(3, Some(0))],
+            vec![Set(2, None), Set(1, None), Set(1, Some(1)), Set(2, Some(1))], Mode::Faithful),
+        History { name: "republish-into-merged-holes", pre: vec![vec![Set(0, Some(0)), Set(1, Some(0)), Set(2, Some(0)), Set(3, Some(0))], vec![Set(2, None)], vec![Set(1, None)]],
+            change: vec![Set(1, Some(1)), Set(2, Some(1))], mode: Mode::Faithful, collide: false },
         c("colliding-replace-shrinks-into-hole", vec![vec![Set(0, Some(2)), Set(1, Some(2))], vec![Set(2, Some(1)), Set(1, None)]], vec![Set(0, Some(0)), Set(3, Some(0))]),
     ]
 }
@@ -184,6 +191,8 @@ pub fn run(ctx: &Ctx) -> Report {
         replacing / withdrawing; two and three deltas in one update; \
         snapshot of a new session replacing an existing archive; Not \
         Modified; a delta failing its hash check followed by the snapshot; \
+        two neighbouring objects withdrawn back to front and published \
+        again, in one update and spread over three; \
         and nine histories in which further objects are given names that \
         the archive's keyed hash puts into the bucket of an existing \
         object - publishing them at the end of the file, into the hole a \
